@@ -426,9 +426,17 @@ func (g *G) union(parent reflect.Value, ut reflect.Type, e *yang.Entry) (reflect
 	var enumTypes []reflect.Type
 	if etm := parent.MethodByName("ΛEnumTypeMap"); etm.IsValid() && e != nil {
 		m := etm.Call(nil)[0]
-		if ts := m.MapIndex(reflect.ValueOf(e.Path())); ts.IsValid() {
-			for i := 0; i < ts.Len(); i++ {
-				enumTypes = append(enumTypes, ts.Index(i).Interface().(reflect.Type))
+		// the table is keyed by schema path without the fake root's name
+		cands := []string{e.Path()}
+		if i := strings.Index(e.Path()[1:], "/"); i >= 0 {
+			cands = append(cands, e.Path()[1+i:])
+		}
+		for _, c := range cands {
+			if ts := m.MapIndex(reflect.ValueOf(c)); ts.IsValid() {
+				for i := 0; i < ts.Len(); i++ {
+					enumTypes = append(enumTypes, ts.Index(i).Interface().(reflect.Type))
+				}
+				break
 			}
 		}
 	}
